@@ -326,8 +326,13 @@ def check(prop, tier):
 
     # 3. failures -> replay files
     founddir = os.path.join(ROOT, 'replays', 'found')
+    seen_msgs = set()
     for n, (fail, what, tail) in enumerate(oc.failures):
         sig = fail.get('signature') or ''
+        mkey = (fail.get('message') or '')[:200]
+        if mkey in seen_msgs or len(violations) >= 4:
+            continue
+        seen_msgs.add(mkey)
         k = next((k for k in known if k.get('status') == 'known' and k.get('signature') and k['signature'] == sig), None)
         if k:
             line = 'KNOWN-FINDING: property=%s %s' % (prop, k['what'])
